@@ -27,9 +27,25 @@ func CopyMessage(out, in interface{}) error {
 		return fmt.Errorf("destination for copy is not a proto.Message: %T; use a custom cloner", in)
 	}
 
+	_, dynIn := pmIn.(*dynamic.Message)
+	_, dynOut := pmOut.(*dynamic.Message)
+	if dynIn || dynOut {
+		// Merging from or into a dynamic message copies byte slices by
+		// reference and drops unknown fields, so the "copy" would share
+		// memory with its source. Go through the wire format instead.
+		if nIn, nOut := proto.MessageName(pmIn), proto.MessageName(pmOut); nIn != nOut {
+			return fmt.Errorf("cannot copy a %s into a %s", nIn, nOut)
+		}
+		b, err := proto.Marshal(pmIn)
+		if err != nil {
+			return err
+		}
+		pmOut.Reset()
+		return proto.Unmarshal(b, pmOut)
+	}
+
 	pmOut.Reset()
 	// This will check that types are compatible and return an error if not.
-	// Unlike proto.Merge, this allows one or the other to be a dynamic message.
 	return dynamic.TryMerge(pmOut, pmIn)
 }
 
@@ -38,6 +54,20 @@ func CloneMessage(m interface{}) (interface{}, error) {
 	pm, ok := m.(proto.Message)
 	if !ok {
 		return nil, fmt.Errorf("value to clone is not a proto.Message: %T; use a custom cloner", m)
+	}
+
+	if dm, ok := pm.(*dynamic.Message); ok {
+		// proto.Clone does not deep-copy a dynamic message (byte slices stay
+		// shared, unknown fields are lost): go through the wire format
+		b, err := dm.Marshal()
+		if err != nil {
+			return nil, err
+		}
+		clone := dynamic.NewMessage(dm.GetMessageDescriptor())
+		if err := clone.Unmarshal(b); err != nil {
+			return nil, err
+		}
+		return clone, nil
 	}
 
 	// this does a proper deep copy
